@@ -1,5 +1,5 @@
 (* C01 — only hash-verified data is ever stored, advertised or assembled. *)
-From Rdest Require Import Base Consts Wire Manager MgrProofs Handler HandlerProofs.
+From Rdest Require Import Base Consts Wire Manager MgrProofs Handler HandlerProofs PairProofs.
 Open Scope N_scope.
 
 (* connection task, for every state, event (any frame a peer can send, any broadcast, any timer) and manager
@@ -31,12 +31,48 @@ Theorem C01_owned_stays : forall m c pick m' r bc sp i, mstep m c pick = Ok (m',
   have_at (m_status m) i -> have_at (m_status m') i.
 Proof. exact have_absorbing. Qed.
 
+(* THE LINK between the two: task and manager composed for one peer address a.  The manager handles the commands an
+   event makes the task send in order (FIFO channel), the one exchange with an answer gets the manager's actual
+   answer; steps for other addresses, choke rotations, tracker answers, disconnects of others interleave freely
+   (EnvKeeps: proved for mstep at other addresses, change_conn_state, handle_tracker_resp).  In every reachable
+   composition the manager's piece_index for a is the index the task is assembling and its "peer chokes us" flag is
+   the task's ... *)
+Theorem C01_pair_invariant : forall sha1 cf disk ovf a m s, creach sha1 cf disk ovf a m s ->
+  Pair a m s /\ exists p, pget (m_peers m) a = Some p.
+Proof. exact pair_reachable. Qed.
+(* ... so when the task, having verified and written the piece with index rx_index rx, reports PieceDone, the piece
+   the manager marks owned and broadcasts as Have is exactly that one *)
+Theorem C01_marked_is_verified : forall sha1 cf disk ovf a m s rx pk m' rep bc sp,
+  creach sha1 cf disk ovf a m s -> h_rx s = Some rx -> mstep m (CPieceDone a) pk = Ok (m', rep, bc, sp) ->
+  nthN (m_status m') (rx_index rx) = Some Manager.Have /\ bc = [BHave (rx_index rx)].
+Proof. exact done_marks_verified. Qed.
+(* the interleaving steps the invariant is closed under *)
+Theorem C01_env_steps : forall a,
+  (forall m c pk m' rep bc sp, cmd_addr c <> a -> mstep m c pk = Ok (m', rep, bc, sp) -> EnvKeeps a m m') /\
+  (forall m rates new_opt m' fl, change_conn_state m rates new_opt = Ok (m', fl) -> EnvKeeps a m m') /\
+  (forall m peers, EnvKeeps a m (fst (handle_tracker_resp m peers))).
+Proof.
+  intros a. split; [intros; eapply mstep_other_keeps; eassumption|]. split; [intros; eapply rotation_keeps; eassumption|].
+  intros. apply tracker_resp_keeps.
+Qed.
+(* non-vacuity: a reachable composition (handshake, Have, Unchoke with assignment) in which the task assembles
+   piece 0 and its PieceDone makes the manager mark and broadcast piece 0 *)
+Example C01_composition_nonvacuous :
+  creach ex_sha1 ex_cf ex_disk true 1 ex_m4 ex_s3 /\
+  (exists rx, h_rx ex_s3 = Some rx /\ rx_index rx = 0) /\
+  exists m' rep sp, mstep ex_m4 (CPieceDone 1) None = Ok (m', rep, [BHave 0], sp).
+Proof. exact composition_reaches_a_download. Qed.
+
 (* serving (C09_manager), advertising (C11_bitfield, C11_broadcast) and counting as done all read Have.
-   Not proved in Coq: that the piece the manager marks is the piece the task verified (the task's piece_rx index equals
-   the manager's piece_index for that peer) over all interleavings; the end-to-end runs (Corr/Sys.v) check the
-   store, the adverts and the statuses on the real system. *)
+   Modelling assumption of the composition: a task's fire-and-forget commands (Choke, Interested) are handled before
+   its next event (they are handled before its next exchange: FIFO; the manager fields they set are read only when
+   handling this task's own commands).  The end-to-end runs (Corr/Sys.v) check the store, the adverts and the
+   statuses on the real system. *)
 Print Assumptions C01_writes_verified.
 Print Assumptions C01_done_after_write.
 Print Assumptions C01_mismatch_discards.
 Print Assumptions C01_only_done_makes_have.
 Print Assumptions C01_owned_stays.
+Print Assumptions C01_pair_invariant.
+Print Assumptions C01_marked_is_verified.
+Print Assumptions C01_env_steps.
